@@ -81,7 +81,12 @@ __CPROVER_ensures(s != NULL ==> (s->len <= __CPROVER_old(s->len) && s->size == W
 ;
 
 /* leaf callees of the decoders, replaced in the loop-carrying units (their own units: x2c, c12_u_decode_realmap) */
-unsigned char contract_x2c(unsigned char *what)
+unsigned char contract_x2c(unsigned char *what)                 /* enforced (unit x2c) */
+__CPROVER_requires(__CPROVER_is_fresh(what, 2))
+__CPROVER_assigns()
+__CPROVER_ensures(1)
+;
+unsigned char contract_x2c_site(unsigned char *what)            /* call-site form: interior pointer, two readable bytes */
 __CPROVER_requires(__CPROVER_r_ok(what, 2))
 __CPROVER_assigns()
 __CPROVER_ensures(1)
